@@ -117,6 +117,7 @@ class BaseSamples:
             log_prior=self.log_prior,
             log_q=self.log_q,
             xp=np,
+            dtype=dtype,
         )
 
     def to_namespace(self, xp, dtype: Any | str | None = None):
@@ -579,6 +580,7 @@ class Samples(BaseSamples):
             log_evidence_error=self.log_evidence_error
             if self.log_evidence_error is not None
             else None,
+            dtype=convert_dtype(self.dtype, np),
         )
 
     def to_dataframe(self, include: list[str] | None = None) -> "pd.DataFrame":
@@ -756,6 +758,7 @@ class SMCSamples(BaseSamples):
             log_evidence_error=self.log_evidence_error
             if self.log_evidence_error is not None
             else None,
+            dtype=convert_dtype(self.dtype, np),
         )
 
     def __getitem__(self, idx):
